@@ -253,7 +253,7 @@ func (vc *VC) loadPure(st *State, addr *SV, t types.Type) *SV {
 	l := layout(t)
 	v := &SV{T: t, C: make([]string, len(l))}
 	for i, s := range l {
-		v.C[i] = vc.known(sel2(st.H[s.heap()], addr.C[0], cellIdx(addr.C[1], i)))
+		v.C[i] = vc.readCell(st.H[s.heap()], addr.C[0], cellIdx(addr.C[1], i))
 	}
 	return v
 }
@@ -265,6 +265,62 @@ func (vc *VC) known(t string) string {
 		return c
 	}
 	return t
+}
+
+// readCell builds the term for cell (ref, idx) of heap h. When idx is a literal it looks
+// through stores to the same object at other literal cells (store forwarding), so that a
+// field that was not written keeps the term - and the known constant - it had before.
+func (vc *VC) readCell(h, ref, idx string) string {
+	if _, _, lit := litVal(idx); !lit {
+		return vc.known(sel2(h, ref, idx))
+	}
+	cur := h
+	for depth := 0; depth < 64; depth++ {
+		def, ok := vc.defOf[cur]
+		if !ok || !strings.HasPrefix(def, "(store ") {
+			break
+		}
+		sx := parseSexpSafe(def)
+		if sx == nil || len(sx.list) != 4 {
+			break
+		}
+		base, r, row := sx.list[1].String(), sx.list[2].String(), sx.list[3]
+		if r != ref {
+			// a different reference term: it may or may not alias; only provably distinct
+			// fresh allocations are skipped
+			if vc.allocRefs[r] && vc.allocRefs[ref] {
+				cur = base
+				continue
+			}
+			break
+		}
+		// same object: the row must be (store (select base r) I V) with literal I
+		if row.list == nil || len(row.list) != 4 || row.list[0].atom != "store" {
+			break
+		}
+		inner := row.list[1].String()
+		if inner != sel(base, r) {
+			break
+		}
+		i := row.list[2].String()
+		if _, _, ilit := litVal(i); !ilit {
+			break
+		}
+		if i == idx {
+			return row.list[3].String()
+		}
+		cur = base
+	}
+	return vc.known(sel2(cur, ref, idx))
+}
+
+func parseSexpSafe(s string) (x *sexp) {
+	defer func() {
+		if recover() != nil {
+			x = nil
+		}
+	}()
+	return parseSexp(s)
 }
 
 // learnConsts records  location == literal  facts among the conjuncts of e.
@@ -279,7 +335,7 @@ func (env *Env) learnConsts(e Expr) {
 			func() {
 				defer func() { recover() }()
 				a, b := env.eval(x.X), env.eval(x.Y)
-				if len(a.C) != 1 || len(b.C) != 1 || a.Untyped != nil && b.Untyped != nil {
+				if (a.Untyped == nil && len(a.C) != 1) || (b.Untyped == nil && len(b.C) != 1) || (a.Untyped != nil && b.Untyped != nil) {
 					return
 				}
 				ta, tb, _, _ := env.coerce(a, b, x)
@@ -700,6 +756,30 @@ func (env *Env) evalCall(e CallE) *SV {
 			parts = append(parts, sel2(env.st.H["H8"], x.C[0], cellIdx(x.C[1], k)))
 		}
 		return &SV{Sort: bvSort(nb * 8), Signed: false, C: []string{app("concat", parts...)}}
+	case "vec16":
+		// vec16(k, e): the 128-bit vector whose byte k (k = 0 most significant) is e, for k = 0..15
+		need(2)
+		id, ok := e.Args[0].(Ident)
+		if !ok {
+			env.fail("vec16(k, e): first argument must be a variable name")
+		}
+		var parts []string
+		for k := 0; k < 16; k++ {
+			b := env.with(id.Name, ghostBV(64, true, bvLit(64, int64(k)))).eval(e.Args[1])
+			if b.Untyped != nil {
+				parts = append(parts, bvLitBig(8, b.Untyped))
+			} else {
+				if b.sort().Bits() != 8 {
+					env.fail("vec16: element is not a byte")
+				}
+				parts = append(parts, b.term())
+			}
+		}
+		return &SV{Sort: SBV128, C: []string{app("concat", parts...)}}
+	case "hi8":
+		need(1)
+		x := arg(0)
+		return ghostBV(8, false, fmt.Sprintf("((_ extract %d %d) %s)", x.sort().Bits()-1, x.sort().Bits()-8, x.term()))
 	case "rsa_ok":
 		need(0)
 		if vc.lastRSA == nil {
@@ -1363,4 +1443,87 @@ func (vc *VC) termBits(t string) int {
 		return 8
 	}
 	return 0
+}
+
+// splitConst splits a clause of the form  all(k, lo, hi, body)  or  A ==> all(k, lo, hi, body)
+// with a small constant range into one clause per value of k (each becomes its own
+// obligation, which keeps the individual queries small).
+func splitConst(e Expr) []Expr {
+	if b, ok := e.(Binary); ok && b.Op == "==>" {
+		parts := splitConst(b.Y)
+		if len(parts) <= 1 {
+			return []Expr{e}
+		}
+		var out []Expr
+		for _, p := range parts {
+			out = append(out, Binary{"==>", b.X, p})
+		}
+		return out
+	}
+	c, ok := e.(CallE)
+	if !ok || c.Fn != "all" || len(c.Args) != 4 {
+		return []Expr{e}
+	}
+	// all(j, lo, X + 1, body)  ==  all(j, lo, X, body)  &&  (lo <= X ==> body[j := X])
+	if hb, isBin := c.Args[2].(Binary); isBin && hb.Op == "+" {
+		if one, isNum := hb.Y.(Num); isNum && one.V.IsInt64() && one.V.Int64() == 1 {
+			if id0, isId0 := c.Args[0].(Ident); isId0 {
+				return []Expr{
+					CallE{"all", []Expr{c.Args[0], c.Args[1], hb.X, c.Args[3]}},
+					Binary{"==>", Binary{"<=", c.Args[1], hb.X}, substIdent(c.Args[3], id0.Name, hb.X)},
+				}
+			}
+		}
+	}
+	id, isId := c.Args[0].(Ident)
+	lo, lok := c.Args[1].(Num)
+	hi, hok := c.Args[2].(Num)
+	if !isId || !lok || !hok || !lo.V.IsInt64() || !hi.V.IsInt64() || hi.V.Int64()-lo.V.Int64() > 64 || hi.V.Int64()-lo.V.Int64() < 2 {
+		return []Expr{e}
+	}
+	var out []Expr
+	for k := lo.V.Int64(); k < hi.V.Int64(); k++ {
+		out = append(out, substIdent(c.Args[3], id.Name, Num{big.NewInt(k)}))
+	}
+	return out
+}
+
+func substIdent(e Expr, name string, by Expr) Expr {
+	switch x := e.(type) {
+	case Ident:
+		if x.Name == name {
+			return by
+		}
+		return x
+	case Unary:
+		return Unary{x.Op, substIdent(x.X, name, by)}
+	case Binary:
+		return Binary{x.Op, substIdent(x.X, name, by), substIdent(x.Y, name, by)}
+	case CallE:
+		// a nested quantifier rebinding the same name shadows it
+		if (x.Fn == "all" || x.Fn == "any" || x.Fn == "all32" || x.Fn == "any32" || x.Fn == "vec16") && len(x.Args) >= 1 {
+			if id, ok := x.Args[0].(Ident); ok && id.Name == name {
+				return x
+			}
+		}
+		var as []Expr
+		for _, a := range x.Args {
+			as = append(as, substIdent(a, name, by))
+		}
+		return CallE{x.Fn, as}
+	case IndexE:
+		return IndexE{substIdent(x.X, name, by), substIdent(x.I, name, by)}
+	case FieldE:
+		return FieldE{substIdent(x.X, name, by), x.Name}
+	case SliceE:
+		var lo, hi Expr
+		if x.Lo != nil {
+			lo = substIdent(x.Lo, name, by)
+		}
+		if x.Hi != nil {
+			hi = substIdent(x.Hi, name, by)
+		}
+		return SliceE{substIdent(x.X, name, by), lo, hi}
+	}
+	return e
 }
